@@ -269,7 +269,7 @@ Definition ph_adm (p : ph) (res : N) : Prop :=
   res = HandleProposedHeaderAccepted -> pow_ok (hd_next (ph_hdr p)) /\ vs_keys (hd_next (ph_hdr p)) <> [].
 
 Lemma K_handle_ph_loop ih ivs fuel : forall backfilled s p s' res,
-  K ih ivs s -> tinv s -> ph_bounded p -> proofs_nonempty (cp_proofs (hd_pcp (ph_hdr p))) -> ph_adm p res ->
+  K ih ivs s -> tinv s -> ph_bounded p -> ph_adm p res ->
   handle_ph_loop fuel backfilled s p = Ok (s', res) -> K ih ivs s' /\ pref ih ivs s s'.
 Proof.
   assert (Hbody : forall s p status proposer prev_hash prev_vs view_vs s' res,
@@ -340,7 +340,7 @@ Proof.
     destruct (validate_finalized _ _ _ _ _) as [[bits|] [|]]; try apply Hsame.
     unfold bind at 1. destruct (byz_majority _); [|discriminate].
     destruct (_ <? _); [apply Hsame|exact Hacc]. }
-  induction fuel as [|f IH]; intros backfilled s p s' res HK HT Hb Hne Hadm; cbn [handle_ph_loop];
+  induction fuel as [|f IH]; intros backfilled s p s' res HK HT Hb Hadm; cbn [handle_ph_loop];
     destruct (ph_check s p) as [status proposer prev_hash prev_vs view_vs] eqn:Hc.
   all: pose proof HK as (HI&_&(_&_&_&_&Xs)).
   all: assert (Hsame : forall r0, Ok (s, r0) = Ok (s', res) -> K ih ivs s' /\ pref ih ivs s s')
@@ -357,10 +357,10 @@ Proof.
   - destruct backfilled; [apply Hsame|].
     unfold bind at 1. destruct (handle_votes KPrecommit s (vote_msg_of_pcp p)) as [[s1 r1]|] eqn:Hv; [|discriminate].
     cbn [fst]. intros E.
-    destruct (K_handle_votes ih ivs KPrecommit s (vote_msg_of_pcp p) s1 r1 (or_intror eq_refl) HK Hne Hv) as [K1 P1].
+    destruct (K_handle_votes ih ivs KPrecommit s (vote_msg_of_pcp p) s1 r1 (or_intror eq_refl) HK Hv) as [K1 P1].
     assert (T1 : tinv s1).
     { destruct (handle_votes_total KPrecommit s (vote_msg_of_pcp p) HT) as (sr&Esr&Tsr). rewrite Hv in Esr. inversion Esr; subst sr. exact Tsr. }
-    destruct (IH true s1 p s' res K1 T1 Hb Hne Hadm E) as [K2 P2].
+    destruct (IH true s1 p s' res K1 T1 Hb Hadm E) as [K2 P2].
     split; [exact K2|eapply pref_trans; eassumption].
   - eapply Hbody; try eassumption; [eapply status_acceptable; eassumption|].
     destruct HI as (HIc&_&HIs&_).
